@@ -26,6 +26,7 @@ import (
 	"crypto/sha1"
 	"encoding/hex"
 	"encoding/json"
+	"errors"
 	"flag"
 	"fmt"
 	"io"
@@ -44,6 +45,7 @@ import (
 	"tunnox-core/internal/cloud/repos"
 	"tunnox-core/internal/cloud/services"
 	"tunnox-core/internal/command"
+	"tunnox-core/internal/constants"
 	"tunnox-core/internal/core/idgen"
 	corelog "tunnox-core/internal/core/log"
 	"tunnox-core/internal/core/storage"
@@ -124,6 +126,7 @@ type kase struct {
 	bridge   bool
 	extra    int64    // != 0: every identity-like key is added to the body with this foreign value
 	extraKey []string // key:n | key:s
+	faults   uint64   // bit i: the i-th read (during the command) of the named mapping's main record fails transiently
 	conns    []connSpec
 	maps     []mapSpec
 	codes    []codeSpec
@@ -144,15 +147,24 @@ func parseCase(s string) (*kase, error) {
 	k := &kase{ctype: atoi(t[1]), resp: t[3] == "1", from: atoi(t[5]), snd: t[7], rcv: t[9], tok: t[11],
 		bad: t[13] == "1", m: atoi(t[15]), g: atoi64(t[17]), k: atoi(t[19]), d: atoi(t[21])}
 	i := 23
-	switch {
-	case t[22] == "W":
-	case t[22] == "e" && len(t) > 26 && t[25] == "W":
-		k.extra = atoi64(t[23])
-		k.extraKey = strings.Split(t[24], ",")
-		i = 26
-	default:
+	i = 22
+	if i+2 < len(t) && t[i] == "e" {
+		k.extra = atoi64(t[i+1])
+		k.extraKey = strings.Split(t[i+2], ",")
+		i += 3
+	}
+	if i+1 < len(t) && t[i] == "q" {
+		v, err := strconv.ParseUint(t[i+1], 10, 64)
+		if err != nil {
+			return nil, fmt.Errorf("bad fault plan")
+		}
+		k.faults = v
+		i += 2
+	}
+	if i >= len(t) || t[i] != "W" {
 		return nil, fmt.Errorf("bad case")
 	}
+	i++
 	if i+1 < len(t) && t[i] == "br" {
 		k.bridge = t[i+1] == "1"
 		i += 2
@@ -219,12 +231,48 @@ func parseCase(s string) (*kase, error) {
 	return k, nil
 }
 
+// ---------------------------------------------------------------- fault-injecting store
+
+// flakyStorage is the real in-memory storage with one injectable fault: while armed, the reads (Get) of one key are
+// counted, and the i-th one fails with a transient error if bit i of the plan is set. Everything else, and every
+// read after the plan is exhausted, is served by the real storage.
+type flakyStorage struct {
+	*storage.MemoryStorage
+	mu    sync.Mutex
+	key   string
+	plan  uint64
+	reads int
+}
+
+var errTransient = errors.New("storage: i/o timeout (verif: injected transient read fault)")
+
+func (f *flakyStorage) Get(key string) (any, error) {
+	f.mu.Lock()
+	if f.key != "" && key == f.key {
+		n := f.reads
+		f.reads++
+		if n < 64 && f.plan&(1<<uint(n)) != 0 {
+			f.mu.Unlock()
+			return nil, errTransient
+		}
+	}
+	f.mu.Unlock()
+	return f.MemoryStorage.Get(key)
+}
+
+func (f *flakyStorage) arm(key string, plan uint64) {
+	f.mu.Lock()
+	f.key, f.plan, f.reads = key, plan, 0
+	f.mu.Unlock()
+}
+
 // ---------------------------------------------------------------- world
 
 type world struct {
 	cancel  context.CancelFunc
 	sms     []*session.SessionManager // one per node
 	hub     *hub
+	stor    *flakyStorage
 	cloud   *managers.BuiltinCloudControl
 	kase    *kase
 	pmRepo  *repos.PortMappingRepo
@@ -343,6 +391,9 @@ func (w *world) settle() string {
 				continue
 			}
 			deadline := time.Now().Add(5 * time.Second)
+			if w.kase.faults != 0 {
+				deadline = time.Now().Add(30 * time.Millisecond)
+			}
 			for {
 				got := false
 				for _, p := range fs.snapshot() {
@@ -354,6 +405,9 @@ func (w *world) settle() string {
 					break
 				}
 				if time.Now().After(deadline) {
+					if w.kase.faults != 0 {
+						break // the receiving node's own read of the record may have been the one that failed: nothing is pushed
+					}
 					return "timeout-broadcast-delivery"
 				}
 				time.Sleep(50 * time.Microsecond)
@@ -368,7 +422,12 @@ func buildWorld(k *kase) (*world, error) {
 	ctx, cancel := context.WithCancel(context.Background())
 	w := &world{cancel: cancel, done: make(chan struct{}, 4), kase: k, hub: &hub{subs: map[string][]chan *session.BroadcastMessage{}}}
 	// storage, cloud control and services are shared by all nodes (one deployment)
-	stor := storage.NewMemoryStorage(ctx)
+	mem, ok := storage.NewMemoryStorage(ctx).(*storage.MemoryStorage)
+	if !ok {
+		return nil, fmt.Errorf("memory storage has an unexpected concrete type")
+	}
+	stor := &flakyStorage{MemoryStorage: mem}
+	w.stor = stor
 	repo := repos.NewRepository(stor)
 	cc := factories.NewBuiltinCloudControlWithRepo(ctx, managers.DefaultConfig(), stor, repo)
 	w.cloud = cc
@@ -519,7 +578,7 @@ func (w *world) snapshot(ids []int64) snap {
 		mapLT: map[string]string{}, codeT: map[string]string{}, domO: map[string]string{}, raw: map[string][]byte{}}
 	ms, _ := w.pmRepo.ListAllMappings()
 	for _, m := range ms {
-		s.maps[m.ID] = fmt.Sprintf("%d:%d:%s:%d:%d:%v", m.ListenClientID, m.TargetClientID, m.Status,
+		s.maps[m.ID] = fmt.Sprintf("%d:%d:%s:%d:%d:%v:listed", m.ListenClientID, m.TargetClientID, m.Status,
 			m.TrafficStats.BytesSent, m.TrafficStats.BytesReceived, m.IsRevoked)
 		s.mapLT[m.ID] = fmt.Sprintf("%d:%d", m.ListenClientID, m.TargetClientID)
 		s.raw[m.ID], _ = json.Marshal(m)
@@ -863,6 +922,9 @@ func runOnce(k *kase, claimed bool) string {
 		if k.resp {
 			pt = packet.CommandResp
 		}
+		if k.faults != 0 && k.m >= 0 && k.m < len(w.mapIDs) {
+			w.stor.arm(constants.KeyPrefixPortMapping+":"+w.mapIDs[k.m], k.faults)
+		}
 		err = w.smOf(k.from).HandlePacket(&types.StreamPacket{ConnectionID: connID(k.from), Timestamp: time.Now(),
 			Packet: &packet.TransferPacket{PacketType: pt, CommandPacket: cmd}})
 		ret := "1"
@@ -879,6 +941,7 @@ func runOnce(k *kase, claimed bool) string {
 				return
 			}
 		}
+		w.stor.arm("", 0)
 		if msg := w.settle(); msg != "" {
 			res <- msg
 			return
@@ -1030,7 +1093,32 @@ func execCase(out *vc.Out, caseStr string) {
 	if k.snd != "0" || k.rcv != "0" || k.tok != "-" || k.extra != 0 || (k.g != 0 && !addressedType(k)) {
 		b = runOnce(k, false)
 	}
+	if k.faults != 0 && !faultModelled(k) {
+		// read faults are modelled for the commands that look one named mapping up; for every other command the case
+		// is an excluded point of the model comparison and is judged by the property predicate only
+		out.Count("excluded-point:read-fault-unmodelled-command")
+		out.Case(key+"x "+caseStr[2:], a+" ~ "+b, caseStr)
+		return
+	}
 	out.Case(key+caseStr, a+" ~ "+b, caseStr)
+}
+
+func faultModelled(k *kase) bool {
+	switch packet.CommandType(k.ctype) {
+	case packet.MappingGet, packet.MappingDelete, packet.TunnelTrafficReport:
+		return true
+	case packet.SOCKS5TunnelRequestCmd:
+		return !k.bridge // on the broadcast path every receiving node reads the record again
+	}
+	return false
+}
+
+// withFaults marks a case: the reads of the named mapping's record fail as the plan says.
+func withFaults(cs string, plan int) string {
+	if plan == 0 {
+		return cs
+	}
+	return strings.Replace(cs, " W ", fmt.Sprintf(" q %d W ", plan), 1)
 }
 
 // addressedType: the commands whose body target_client_id is the addressee by protocol design (DNS forward,
@@ -1201,6 +1289,30 @@ func gen(out *vc.Out, r *vc.Rand, thorough bool) {
 			}
 		}
 	}
+	// 1d. transient storage-read faults: every schedule of failures over the first reads of the named mapping's record
+	//     x identity x whose mapping it is, for the commands that look a mapping up (modelled), and for every other
+	//     interesting command type (judged by the predicate only)
+	maxPlan := 7
+	if thorough {
+		maxPlan = 31
+	}
+	for _, ct := range []int{75, 76, 110, 90, 74, 50, 72, 86, 120, 102, 71, 87} {
+		for from := 0; from < len(conns); from++ {
+			for m := 0; m < 3; m++ {
+				for plan := 1; plan <= maxPlan; plan++ {
+					cs := caseStr(ct, false, from, 0, 0, "-", false, m, B, 0, 0, std)
+					if !(ct == 75 || ct == 76 || ct == 110 || ct == 90) && (m != 0 || plan > 3) {
+						continue
+					}
+					execCase(out, withFaults(cs, plan))
+					if thorough && plan <= 3 {
+						execCase(out, withFaults(withExtras(caseStr(ct, false, from, A, B, "1001", false, m, B, 0, 0, std), A), plan))
+					}
+					out.Count("read-faults")
+				}
+			}
+		}
+	}
 	// 1c. two nodes: sender identity x claimed body target x where the mapping's real target is connected
 	//     (same node / other node / nowhere) x bridge manager configured or not
 	for _, ct := range []int{90, 120, 121, 102, 110, 76, 72, 75} {
@@ -1302,6 +1414,9 @@ func gen(out *vc.Out, r *vc.Rand, thorough bool) {
 		cstr := caseStr(ct, r.Intn(10) == 0, r.Intn(nc), snd, rcv, tok, r.Intn(20) == 0, ref(len(ms)), g, ref(len(cds)), ref(len(ds)), w)
 		if r.Intn(3) == 0 {
 			cstr = withExtras(cstr, vc.Pick(r, ids))
+		}
+		if r.Intn(4) == 0 {
+			cstr = withFaults(cstr, r.Intn(8))
 		}
 		execCase(out, cstr)
 		out.Count("random")
